@@ -65,6 +65,27 @@ fn check_wall_clock(case: &Case, obs: &mut Obs) -> Verdict {
             Err(p) => return Verdict::Fail(format!("timeout({:?}): {}", d, p)),
         }
     }
+    // a zero / one-nanosecond timeout is a deadline that is over by the first checks: the result is the
+    // approximation for an expiry at one of the first probes (never the exact diff of an input whose
+    // exact diff differs from all of them)
+    {
+        let mut approx = vec![];
+        for k in 0..4u64 {
+            match capture(c, Some(k)) {
+                Ok(o) => approx.push(o),
+                Err(p) => return Verdict::Fail(format!("capture with expiry at probe {}: {}", k, p)),
+            }
+        }
+        if !approx.contains(&want) {
+            for d in [Duration::from_secs(0), Duration::from_nanos(1)] {
+                match guard(|| TextDiff::configure().algorithm(alg).timeout(d).diff_slices(&a, &b).ops().to_vec()) {
+                    Ok(o) if approx.contains(&o) => {}
+                    Ok(o) => return Verdict::Fail(format!("{}: timeout({:?}) gives {:?}, which is not the result of an expiry at one of the first four probes {:?} (no deadline gives {:?})", alg_name(c.alg), d, o, approx, want)),
+                    Err(p) => return Verdict::Fail(format!("timeout({:?}): {}", d, p)),
+                }
+            }
+        }
+    }
     // a reused configuration: the timeout must count from the start of each diff
     let mut mismatches = 0;
     for _attempt in 0..3 {
@@ -139,9 +160,73 @@ fn check_expired_only(case: &Case, obs: &mut Obs) -> Verdict {
     Verdict::Pass
 }
 
+/// mode 9: inputs whose exact diff is expensive (LCS tables of 66 000 - 160 000 cells, Myers with D in
+/// the hundreds): only the deadline that never expires (virtual clock, and a real deadline one hour
+/// ahead) is executed, through every entry point; the result must be exactly the no-deadline result.
+fn check_never_only(case: &Case, obs: &mut Obs) -> Verdict {
+    let c = &case.seq;
+    let name = alg_name(c.alg);
+    let alg = alg_of(c.alg);
+    let raw = |dl: Option<Instant>| -> Result<Vec<Ev>, String> {
+        guard(|| {
+            let mut r = Recorder::new();
+            algorithms::diff_deadline(alg, &mut r, &c.old[..], c.old_r(), &c.new[..], c.new_r(), dl).unwrap();
+            r.events
+        })
+    };
+    let e0 = match raw(None) {
+        Ok(e) => e,
+        Err(p) => return Verdict::Fail(format!("{} without deadline: {}", name, p)),
+    };
+    similar::verif::clock::install(Some(u64::MAX));
+    let e1 = raw(Some(far_future()));
+    let probes = similar::verif::clock::probes();
+    similar::verif::clock::install(None);
+    let e2 = raw(Some(far_future()));
+    for (what, e) in [("a virtual clock that never expires", e1), ("a real deadline one hour ahead", e2)] {
+        match e {
+            Ok(e) if e == e0 => {}
+            Ok(e) => return Verdict::Fail(format!("{} ({} x {} items): {} gives a different script ({} events, {} changed items) than no deadline ({} events, {} changed items)", name, c.old.len(), c.new.len(), what, e.len(), events_cost(&e).0 + events_cost(&e).1, e0.len(), events_cost(&e0).0 + events_cost(&e0).1)),
+            Err(p) => return Verdict::Fail(format!("{} with {}: {}", name, what, p)),
+        }
+    }
+    let ops0 = match capture(c, None) {
+        Ok(o) => o,
+        Err(p) => return Verdict::Fail(format!("capture without deadline: {}", p)),
+    };
+    match capture(c, Some(u64::MAX)) {
+        Ok(o) if o == ops0 => {}
+        Ok(_) => return Verdict::Fail(format!("{} ({} x {} items): capture_diff_deadline with a deadline that never expires differs from capture_diff", name, c.old.len(), c.new.len())),
+        Err(p) => return Verdict::Fail(format!("capture with a never-expiring deadline: {}", p)),
+    }
+    let os: Vec<String> = c.old.iter().map(|x| format!("w{}", x)).collect();
+    let ns: Vec<String> = c.new.iter().map(|x| format!("w{}", x)).collect();
+    let a: Vec<&str> = os.iter().map(|s| s.as_str()).collect();
+    let b: Vec<&str> = ns.iter().map(|s| s.as_str()).collect();
+    for variant in 0..2 {
+        let r = guard(|| match variant {
+            0 => TextDiff::configure().algorithm(alg).deadline(far_future()).diff_slices(&a, &b).ops().to_vec(),
+            _ => TextDiff::configure().algorithm(alg).timeout(Duration::from_secs(3600)).diff_slices(&a, &b).ops().to_vec(),
+        });
+        match r {
+            Ok(o) if o == ops0 => {}
+            Ok(_) => return Verdict::Fail(format!("{} ({} x {} items): TextDiffConfig with a {} one hour ahead gives other ops than no deadline", name, c.old.len(), c.new.len(), ["deadline", "timeout"][variant])),
+            Err(p) => return Verdict::Fail(format!("TextDiffConfig: {}", p)),
+        }
+    }
+    obs.executions = 7;
+    obs.nontrivial = e0.len() >= 3 && probes >= 2;
+    obs.class("expensive exact diff: never-expiring deadlines only");
+    obs.class(name);
+    Verdict::Pass
+}
+
 fn check_case(case: &Case, obs: &mut Obs) -> Verdict {
     if case.seq.mode == 7 {
         return check_wall_clock(case, obs);
+    }
+    if case.seq.mode == 9 {
+        return check_never_only(case, obs);
     }
     if case.seq.mode == 8 {
         return check_expired_only(case, obs);
@@ -398,7 +483,23 @@ fn strat(tier: Tier) -> BoxedStrategy<Case> {
         )),
         2 => anchor_gap(tier.pick(30, 70)),
     ];
-    (0u8..3, pair, raw_ranges(true), 0u8..2, vec(any::<u16>(), 16))
+    let never_only = (prop_oneof![3 => Just(2u8), 1 => Just(0u8), 1 => Just(1u8)], 2u32..9, vec(0u32..64, 257..=400), vec((0u8..3, any::<u16>(), 0u32..64), 20..=90), any::<bool>()).prop_map(|(alg, k, a, es, unrelated)| {
+        let a: Vec<u32> = a.into_iter().map(|x| x % k).collect();
+        let mut b: Vec<u32> = if unrelated { a.iter().rev().map(|x| (x * 3 + 1) % k).collect() } else { a.clone() };
+        for (kind, at, val) in es {
+            let n = b.len();
+            let p = pos(at, n - 1);
+            match kind {
+                0 => {
+                    b.remove(p);
+                }
+                1 => b.insert(p, val % k),
+                _ => b[p] = val % k,
+            }
+        }
+        Case { seq: SeqCase { mode: 9, ..SeqCase::full(alg, a, b) }, ks: vec![] }
+    });
+    let main = (0u8..3, pair, raw_ranges(true), 0u8..2, vec(any::<u16>(), 16))
         .prop_map(|(alg, (old, new), rr, mode, ks)| {
             // LCS keeps a BTreeMap table: cap its inputs
             let (old, new) = if alg == 2 && (old.len() > 60 || new.len() > 60) {
@@ -408,8 +509,8 @@ fn strat(tier: Tier) -> BoxedStrategy<Case> {
             };
             let (or, nr) = ranges_from((rr.0 || old.len() > 100, rr.1, rr.2, rr.3, rr.4), old.len(), new.len());
             Case { seq: SeqCase { alg, old, new, or, nr, mode, k: None }, ks }
-        })
-        .boxed()
+        });
+    prop_oneof![40 => main, 1 => never_only].boxed()
 }
 
 fn enum_small(tier: Tier, f: &mut dyn FnMut(Case) -> bool) {
@@ -459,6 +560,13 @@ fn enum_wall(_tier: Tier, f: &mut dyn FnMut(Case) -> bool) {
         if !f(Case { seq: c, ks: vec![] }) {
             return;
         }
+        // an input whose exact diff differs from every early-expiry approximation
+        let n = if alg == 2 { 60 } else { 300 };
+        let mut c = SeqCase::full(alg, lcg_seq(51, n, 4), lcg_seq(52, n, 4));
+        c.mode = 7;
+        if !f(Case { seq: c, ks: vec![] }) {
+            return;
+        }
     }
 }
 
@@ -467,7 +575,7 @@ impl Prop for C07 {
     const ID: &'static str = "C07";
     const LEVEL: &'static str = "fault_enumeration";
     fn rule() -> String {
-        "cases = (algorithm, old, new, ranges, entry point in {algorithms::diff_deadline, diff_slices_deadline}); for each case the number of deadline probes T is learnt with a never-expiring virtual clock and then EVERY expiry index k in 0..=T is executed (T <= 64) or {0..7, T-1, T} plus 16 generated indices (T > 64) ('executions' counts runs). Families: the shared small mixture, unrelated 50-400 item sequences over alphabets 2-6 (many probes), and the Patience anchor/gap family. Oracle per k: C01 stream validator, finish once and last, C02+C09 oracles on capture_diff_deadline, at most 4*(N+M)+16 element comparisons after expiry (counting PartialEq), k >= T and never-expiring clock => identical to no deadline; plumbing: TextDiffConfig::deadline / ::timeout / capture_diff_slices_deadline give valid scripts at every k, the ops of capture_diff_deadline when the clock expires at the first probe or never, and consult the clock whenever the direct call does; real clock: deadline in the past == expiry at probe 0, deadline one hour ahead == no deadline, a builder on which deadline(past) is set last (alone, after timeout(1 h), after deadline(far)) == expired; wall-clock stage: unrepresentably large timeouts == no deadline (no panic), and a timeout counts from the start of the diff (a builder configured 1.7 s before use with timeout(1.5 s) still gives the exact diff of a tiny input; a mismatch must repeat 3 times). Non-trivial = T >= 2 and some expiry index changes the result; distinct = distinct serialized case.".into()
+        "cases = (algorithm, old, new, ranges, entry point in {algorithms::diff_deadline, diff_slices_deadline}); for each case the number of deadline probes T is learnt with a never-expiring virtual clock and then EVERY expiry index k in 0..=T is executed (T <= 64) or {0..7, T-1, T} plus 16 generated indices (T > 64) ('executions' counts runs). Families: the shared small mixture, unrelated 50-400 item sequences over alphabets 2-6 (many probes), and the Patience anchor/gap family. Oracle per k: C01 stream validator, finish once and last, C02+C09 oracles on capture_diff_deadline, at most 4*(N+M)+16 element comparisons after expiry (counting PartialEq), k >= T and never-expiring clock => identical to no deadline; plumbing: TextDiffConfig::deadline / ::timeout / capture_diff_slices_deadline give valid scripts at every k, the ops of capture_diff_deadline when the clock expires at the first probe or never, and consult the clock whenever the direct call does; real clock: deadline in the past == expiry at probe 0, deadline one hour ahead == no deadline, a builder on which deadline(past) is set last (alone, after timeout(1 h), after deadline(far)) == expired; wall-clock stage: unrepresentably large timeouts == no deadline (no panic), and a timeout counts from the start of the diff (a builder configured 1.7 s before use with timeout(1.5 s) still gives the exact diff of a tiny input; a mismatch must repeat 3 times). 1 random case in 40 is an expensive input (257-400 items; LCS tables of 66 000-160 000 cells) on which only never-expiring deadlines are executed (virtual, real, capture_diff_deadline, TextDiffConfig::deadline/timeout) and compared with no deadline. Non-trivial = T >= 2 and some expiry index changes the result; distinct = distinct serialized case.".into()
     }
     fn assumptions() -> Vec<String> {
         vec![
@@ -497,7 +605,7 @@ impl Prop for C07 {
             Stage {
                 name: "wall-clock",
                 kind: StageKind::Enumerate {
-                    scope: "3 fixed tiny inputs (one per algorithm): timeout(Duration::MAX | u64::MAX s | 2^62 s) == no deadline; a builder configured with timeout(1.5 s) and used 1.7 s later == no deadline".into(),
+                    scope: "6 fixed inputs (a tiny and a 300-item (LCS: 60-item) one per algorithm): timeout(Duration::MAX | u64::MAX s | 2^62 s) == no deadline; timeout(0) and timeout(1 ns) give the approximation of an expiry at one of the first four probes (checked where the exact diff differs from all of them); a builder configured with timeout(1.5 s) and used 1.7 s later == no deadline".into(),
                     exhaustive: true,
                     gen: enum_wall,
                 },
